@@ -48,27 +48,32 @@ type traceEntry struct {
 
 // gstate is the scheduler's private state (touched by the main goroutine only).
 type gstate struct {
-	lastKind  int // kind of the event the task that ran last is parked at
-	rng       *scn.Rng
-	live      int
-	done      []bool
-	pend      []*lockReq
-	inOp      []int64  // expression index / key hash the task is working on, -1 between operations
-	inWindow  []uint64 // key hash while the task is between load-in and its store (0 = not)
-	prio      []int
-	preemptAt map[int64]bool
-	lowPrio   int
-	last      int32
-	point     int64
-	rle       []int
-	replay    []int
-	replayPos int
-	replayCnt int
-	diverged  bool
-	overlap   bool
-	trace     []traceEntry
-	deadlock  string
-	ext       []bool // task is blocked on a primitive the simulator does not model
+	lastKind int // kind of the event the task that ran last is parked at
+	// SyncBias under the pct strategy: ordinals of synchronisation events at
+	// which the announcing task is demoted
+	preemptSync map[int64]bool
+	syncSeen    int64
+	syncHit     bool
+	rng         *scn.Rng
+	live        int
+	done        []bool
+	pend        []*lockReq
+	inOp        []int64  // expression index / key hash the task is working on, -1 between operations
+	inWindow    []uint64 // key hash while the task is between load-in and its store (0 = not)
+	prio        []int
+	preemptAt   map[int64]bool
+	lowPrio     int
+	last        int32
+	point       int64
+	rle         []int
+	replay      []int
+	replayPos   int
+	replayCnt   int
+	diverged    bool
+	overlap     bool
+	trace       []traceEntry
+	deadlock    string
+	ext         []bool // task is blocked on a primitive the simulator does not model
 }
 
 var (
@@ -174,7 +179,8 @@ func (x *exec) pick(run []int32) int32 {
 	}
 	switch cfg.Strategy {
 	case "pct":
-		if g.preemptAt[g.point] && g.last >= 0 {
+		if (g.preemptAt[g.point] || g.syncHit) && g.last >= 0 {
+			g.syncHit = false
 			g.lowPrio--
 			g.prio[g.last] = g.lowPrio
 		}
@@ -233,6 +239,15 @@ func RunG(s *scn.Scenario, opt Options) *Result {
 		x.shared = append(x.shared, ex)
 	}
 
+	if s.Prop == "C16" && len(x.docs) > 0 {
+		for _, text := range PNodeTexts {
+			e := x.begin(SoloBudget, 0)
+			ex, _ := compile(text)
+			x.end(e)
+			x.pnode = append(x.pnode, ex)
+		}
+	}
+
 	if s.Cfg.NS && s.Cfg.NSRebind {
 		// an earlier request compiled these texts under the old bindings; then the
 		// client re-binds its prefixes in the SAME map object (its right) and the
@@ -275,6 +290,22 @@ func RunG(s *scn.Scenario, opt Options) *Result {
 	}
 	for k := 0; k < s.Cfg.Preempts; k++ {
 		g.preemptAt[int64(g.rng.Intn(int(estimate)))] = true
+	}
+	if s.Cfg.SyncBias {
+		// priority changes aimed at synchronisation events: the k-th lock / pool /
+		// atomic / loader event of the run (whoever announces it) demotes that task
+		// until the others finish or block - the long delay a check-then-act window
+		// across two critical sections needs
+		nops := 0
+		for _, ops := range s.Tasks {
+			for _, st := range ops {
+				nops += 1 + st.Rep
+			}
+		}
+		g.preemptSync = map[int64]bool{}
+		for k := 0; k < s.Cfg.Preempts+1; k++ {
+			g.preemptSync[int64(g.rng.Intn(8*nops+8))] = true
+		}
 	}
 	mark := opt.RaceLog.Mark()
 	x.raceLog, x.raceMark = opt.RaceLog, mark
@@ -433,6 +464,12 @@ func (x *exec) schedule() {
 		}
 		s.current.Store(-1)
 		g.lastKind = int(m.kind)
+		if g.preemptSync != nil && (g.lastKind >= vs.EvRLock && g.lastKind <= vs.EvAtomic || g.lastKind == evLoadIn) {
+			if g.preemptSync[g.syncSeen] {
+				g.syncHit = true
+			}
+			g.syncSeen++
+		}
 		x.handle(m)
 		// the cache can only have changed when a write lock was just released;
 		// also look at operation boundaries and after failed loads
@@ -910,6 +947,8 @@ func (x *exec) taskOp(t *task, i int, st scn.Step) {
 			r = x.cache.opNoise(st)
 		case "numpat":
 			r = x.cache.opNumPat(st)
+		case "pnode":
+			r = x.cache.opPNode(i, st, t.id)
 		default:
 			r = x.cache.opRegex(i, st, t.id)
 		}
